@@ -1291,13 +1291,16 @@ class RebaseInheritingObject(
         bases = [
             b for b in bases if b.get_name(schema) not in removed_bases
         ]
-        existing_bases = {b.get_name(schema) for b in bases}
-
-        index = {b.get_name(schema): i for i, b in enumerate(bases)}
 
         for new_bases, pos in self.added_bases:
             if isinstance(pos, tuple):
                 pos, ref = pos
+
+            # A base that is already present is being moved to
+            # a new position.
+            moved = {b.name for b in new_bases}
+            bases = [b for b in bases if b.get_name(schema) not in moved]
+            index = {b.get_name(schema): i for i, b in enumerate(bases)}
 
             if not pos or pos == 'LAST':
                 idx = len(bases)
@@ -1309,9 +1312,8 @@ class RebaseInheritingObject(
             bases[idx:idx] = [
                 self.get_object(
                     schema, context, name=b.name, sourcectx=b.sourcectx)
-                for b in new_bases if b.name not in existing_bases
+                for b in new_bases
             ]
-            index = {b.get_name(schema): i for i, b in enumerate(bases)}
 
         if not bases and default_base:
             bases = [default_base]
